@@ -23,6 +23,8 @@ HAND = [
     "from t | select {a, b} | group {a, b} (take 1) | filter b > 1 | select {a}",
     "from t | select {k, a, b} | group a (take 1) | select {a}",
     "from t | select {a, b} | take 3 | group {a, b} (take 1)",
+    "from t | select {a, b} | group {a, b} (take 1) | select {a}",
+    "from t | select {k, a, b} | group {a, b} (take 1) | select {b, a}",
     "module default_db { let xx <[{a = int, x = int}]>\n let yy <[{a = int, x = int}]> }\nfrom xx | join side:left yy (xx.a == yy.a && xx.x == yy.x) | filter yy.a == null && yy.x == null && xx.x > 1 | select {xx.a, xx.x}",
     "module default_db { let xx <[{a = int, x = int}]>\n let yy <[{a = int, x = int}]> }\nfrom xx | group this (take 1) | remove yy | filter x > 1",
     "module default_db { let xx <[{a = int, x = int}]>\n let yy <[{a = int, x = int}]> }\nfrom xx | intersect yy | group this (take 1)",
